@@ -275,6 +275,54 @@ def job_after_abort(ai):
     return acc
 
 
+SIZES = (62, 63, 64, 65, 127, 128, 129, 255, 256, 257, 1000)
+LONG = (4095, 4096, 4097, 8190, 8191, 8192, 8193, 16385, 70000)
+
+
+@worker
+def job_long_runs(state):
+    """Size boundaries of the look-ahead queue: runs of n tag / comment / blank lines (n around powers of two, up to 1000)
+    between a tag line and the line that decides the look-ahead."""
+    acc = Acc()
+    wit = kind_witness()[state]
+    word = None
+    for n in SIZES:
+        for unit in (('TagLine',), ('Comment',), ('Empty',), ('TagLine', 'Comment'), ('Empty', 'TagLine', 'Comment')):
+            run_ = (unit * (n // len(unit) + 1))[:n]
+            for t in ('ScenarioLine', 'ExamplesLine', 'RuleLine', 'StepLine', None):
+                word = wit + ('TagLine',) + run_ + ((t,) if t else ())
+                check_kinds(word, acc)
+                acc.counters['long_run_words'] += 1
+        # as text, through the real matcher and the token formatter
+        text = ''.join(DS.CANON[k] for k in wit) + '@first\n' + ('# c\n\n@t\n' * (n // 3 + 1)) + 'Scenario: s\n'
+        check_text(text, acc)
+    acc.sample({'kinds': list(word[:12]) + ['... %d more' % (len(word) - 12)]})
+    return acc
+
+
+@worker
+def job_long_lines(n):
+    """One physical line of n characters (around buffer sizes) in every role: it is still one token with one line number."""
+    acc = Acc()
+    pad = 'x' * n
+    row = '| ' + ' | '.join(['c%d' % i for i in range(n // 6)]) + ' |'
+    docs = [
+        'Feature: f\n  ' + pad + '\n  Scenario: s\n    Given g\n',
+        'Feature: f\n# ' + pad + '\n  Scenario: s\n',
+        'Feature: ' + pad + '\n  Scenario: s\n    Given ' + pad + '\n    Then t\n',
+        'Feature: f\n  Scenario: s\n    Given g\n      ' + row + '\n      ' + row + '\n    Then t\n',
+        'Feature: f\n  Scenario: s\n    Given g\n      """\n      ' + pad + '\n      """\n    Then t\n',
+        'Feature: f\n  ' + ' '.join('@t%d' % i for i in range(n // 5)) + '\n  Scenario: s\n',
+        ' ' * n + 'Feature: f\n' + ' ' * n + '\n  Scenario: s\n',
+        'Feature: f\n  Scenario: s\n' + pad + '\n' + pad + '\n',
+    ]
+    for t in docs:
+        check_text(t, acc)
+        check_text(t.replace('\n', '\r\n'), acc)
+    acc.sample({'text': docs[0][:80] + '... (%d characters)' % len(docs[0])})
+    return acc
+
+
 def run(ctx):
     probs = R.selftest()
     ctx.selftest(not probs, 'reference pipeline reproduces the acceptance corpus (%s)' % (probs[:3] or 'ok'))
@@ -290,6 +338,8 @@ def run(ctx):
     r1, r2 = ctx.pick((3, 1), (4, 2))
     ctx.level('look-ahead words r1<=%d r2<=%d' % (r1, r2), [job_la.job(s, r1, r2, False) for s in la_states()])
     ctx.level('look-ahead words as text r1<=2 r2<=1', [job_la.job(s, 2, 1, True) for s in la_states()])
+    ctx.level('size boundaries: long tag/comment/blank runs', [job_long_runs.job(st) for st in la_states()])
+    ctx.level('size boundaries: long lines', [job_long_lines.job(n) for n in LONG])
     ctx.level('abandoned parse, then the next parse', [job_after_abort.job(i) for i in range(len(ABORTS))])
     k_full, k_core = ctx.pick((2, 2), (3, 3))
     DS.run_levels(ctx, __name__, k_full, k_core)
